@@ -147,7 +147,7 @@ theorem listing_within_capacity (cap : Int) (hcap : 0 ≤ cap) (es : List Event)
   by_cases hemp : Gen.findEmpty c.evs.length = true
   · refine ⟨[], by simp [hemp], by simpa using hcap, by intro x hx; cases hx⟩
   · have hemp' : Gen.findEmpty c.evs.length = false := by simpa using hemp
-    simp only [hemp', Bool.false_eq_true, if_false, List.foldl_cons, List.foldl_nil]
+    simp only [hemp', Bool.false_eq_true, if_false, List.foldl_cons, List.foldl_nil, Cache.findStep]
     have hfull : isFullScanFilter ({} : Filter) = true := by decide
     simp only [hfull, if_true]
     have hsp := sortOrd_props c.evs
